@@ -427,3 +427,11 @@ Definition spec_run (cfg : simcfg) (steps : list (simstep)) : res (list iterobs)
   sim_run astate astate_ops cfg [] steps.
 Definition model_run (cfg : simcfg) (steps : list (simstep)) : res (list iterobs) :=
   sim_run trec trec_ops cfg [] steps.
+
+(* ---- well-formed histories and equality of observations up to the answer sections ---- *)
+Definition rec_ok (r : ident * N) : Prop := snd r < U32.                 (* wire TTL is a u32 *)
+Definition step_ok (s : simstep) : Prop := ss_now s < B63 /\ Forall rec_ok (ss_recs s).
+Definition qd_eq (q1 q2 : qdesc) : Prop := qd_questions q1 = qd_questions q2.
+Definition io_eq (o1 o2 : iterobs) : Prop :=
+  Forall2 qd_eq (io_queries o1) (io_queries o2) /\
+  io_removed_services o1 = io_removed_services o2 /\ io_removed_addrs o1 = io_removed_addrs o2.
